@@ -99,9 +99,21 @@ def stub_grad_lists(it, func, env, node):
     return it.new_list(out)
 
 
+class DefiniteBug(Exception):
+    """Every path of an evaluation that must return raises an error that cannot be legitimate
+    (unresolvable attribute, wrong arity ...)."""
+
+    def __init__(self, exc):
+        super().__init__(str(exc))
+        self.exc = exc
+        self.site = exc.site
+
+
 def single(paths, what=""):
     """Exactly one returning path expected."""
     rets = [p for p in paths if p.outcome == "return"]
+    if not rets and paths and all(p.outcome == "raise" and getattr(p.value, "definite_bug", False) for p in paths):
+        raise DefiniteBug(paths[0].value)
     if len(paths) != 1 or len(rets) != 1:
         raise Unsupported("%s: expected a single path, got %d (%s)" % (what, len(paths), [(p.outcome, [(c[1], c[2]) for c in p.conds]) for p in paths]))
     return rets[0]
